@@ -56,6 +56,8 @@ pub enum Ty {
     Bytes(BytesKind),
     /// Box / Rc / Arc: transparent
     Boxed(Box<Ty>),
+    /// a byte block in a compressed frame (`write_compressed` / `read_compressed` of a client codec)
+    Compressed,
     Uuid,
     Weekday,
     Month,
